@@ -19,6 +19,8 @@ COMPONENTS = c03.COMPONENTS
 CHUNK = 8
 
 
+SEEDED_SCALE = {"quick": 1, "thorough": 1.5}      # multiplies the run counts of the sampled families in plan()
+
 def plan(tier):
     from props import c16
     return c03.plan(tier) + [("pkt:" + f, n) for f, n in c16.plan(tier)]
